@@ -66,7 +66,8 @@ def main():
 
     if not checks_only:
       scratch = "/tmp/mqs/seed-%s" % sid
-      target = "/tmp/mqs/seed-target"       # shared between confirmations (sequential use)
+      # shared between *sequential* confirmations; parallel batches must each set MQ_SEED_TARGET to a directory of their own
+      target = os.environ.get("MQ_SEED_TARGET", "/tmp/mqs/seed-target")
       shutil.rmtree(scratch, ignore_errors=True)
       os.makedirs("/tmp/mqs", exist_ok=True)
       # a clean copy of the pinned commit (not of the working tree, which another confirmation may have patched)
